@@ -38,6 +38,14 @@ IMPORTS = ['Coq.Lists.List', 'Coq.Bool.Bool', 'Coq.ZArith.ZArith', 'Coq.Strings.
 CORPUS = hc.VERIF / 'corpus' / 'C09'
 
 
+def _budget(ck: Ck, quick: int, thorough: int) -> int:
+    """Thorough tier: the thorough budget.  Quick tier: the quick budget, tripled when a tie is broken
+    (escalation of DESIGN 5.4, kept below the 90 s class so that a broken tie is reported promptly)."""
+    if ck.thorough:
+        return thorough
+    return min(thorough, 3 * quick) if ck.tie_broken else quick
+
+
 def _merge_known() -> None:
     """known_findings.d/C09.json is this property's share of known_findings.json (assembled by tools/mkknown.py at
     integration time); until then read it directly so that the outcome protocol is exercised in the worktree."""
@@ -59,12 +67,19 @@ def _merge_known() -> None:
 
 # ------------------------------------------------------------------------------------------------ one copy case
 def norm_path(p: str) -> str:
-    return re.sub(r'\[\d+\]', '[]', p)
+    p = re.sub(r'\[\d+\]', '[]', p)
+    while True:      # collapse recursion (._value[]._value[] ..., .child_groups[].child_groups[] ...)
+        q = re.sub(r'((?:\.\w+)(?:\[\]|\{\})?)\1+', r'\1', p)
+        if q == p:
+            return p
+        p = q
 
 
 def where_key(where: str) -> str:
     """Stable class of an export location: the last two path components, wrappers dropped."""
     parts = [x for x in where.strip('/').split('/') if x and x not in ('hidden',)]
+    if 'connections' in parts[:-1]:
+        return 'connections/output'
     return '/'.join(parts[-2:])
 
 
@@ -95,7 +110,7 @@ def run_copy_case(kind: str, case_seed: int, variant: str, n_mut: int, collect: 
         oa, ob = U.observe(obj, True), U.observe(cp, True)
         if oa != ob:
             where, la, lb = U.first_diff(oa, ob)
-            problems.append({'key': f'copy-incomplete:{kind}:{where_key(where)}',
+            problems.append({'key': f'copy-incomplete:{kind}:{"output-line" if kind == "Output" else where_key(where)}',
                              'what': f'{kind}.{variant}: export of the copy differs from the original at {where}: {la!r} vs {lb!r}',
                              'detail': [where, la, lb]})
     if collect is not None:
@@ -133,7 +148,7 @@ def run_copy_case(kind: str, case_seed: int, variant: str, n_mut: int, collect: 
 
 def search_copies(ck: Ck) -> None:
     from harness import c09_util as U
-    n = ck.budget(3500, 40000)
+    n = _budget(ck, 3500, 40000)
     cases: list[tuple[str, int, str]] = []
     if CORPUS.exists():
         for p in sorted(CORPUS.glob('*.json')):
@@ -178,7 +193,7 @@ def cert_cases(ck: Ck) -> None:
     """Export original+copy object graphs of real objects and let the kernel check the separation certificate
     (the premise of c09_export_ok_independent)."""
     from harness import c09_util as U
-    n = ck.budget(110, 550)
+    n = _budget(ck, 110, 550)
     exprs, meta = [], []
     kinds = itertools.cycle(U.KINDS)
     tries = 0
@@ -228,12 +243,98 @@ def cert_cases(ck: Ck) -> None:
     ck.extra['certificate_rejected'] = [list(m) for m in bad][:20]
 
 
+# ------------------------------------------------------------------------------------------------ census vs runtime
+def runtime_how(a: Any, b: Any) -> str:
+    """What really happened to one field: a = value in the original, b = value in the copy."""
+    from harness import c09_util as U
+    if U.is_context(a) or U.is_context(b):
+        return 'ctx'
+    if U.is_immutable_leaf(a) or isinstance(a, (tuple, frozenset)):
+        try:
+            return 'imm-same' if (a is b or a == b) else 'imm-diff'
+        except Exception:
+            return 'imm-diff'
+    if a is b:
+        return 'share'
+    return 'shallow' if U.shared_mutables(a, b) else 'deep'
+
+
+CONSISTENT = {
+    'HShare': {'share', 'imm-same'}, 'HDeep': {'deep', 'imm-same'}, 'HShallow': {'shallow', 'deep', 'imm-same'},
+    'HMissing': {'deep', 'imm-same', 'imm-diff'}, 'HCtx': {'ctx'}, 'HNewId': {'imm-same', 'imm-diff'},
+}
+
+
+def corr_census_runtime(ck: Ck, side: dict) -> None:
+    """The translator's census (static) against what copy() really does on generated objects (dynamic): for every
+    class and data field, is the field of the copy the same object / a fresh container of the same elements / fresh
+    all the way down, as the census says?  Guards the translator."""
+    from harness import c09_util as U
+    census = side.get('census', {})
+    makers: dict[str, tuple[str, Any]] = {
+        'EntityFixup_copy_values': ('EntityFixup', lambda o, m: U.EntityFixup(o.copy_values())),
+        'EntityFixup_copy': ('EntityFixup', lambda o, m: _copy.copy(o)),
+        'EntityFixup_deepcopy': ('EntityFixup', lambda o, m: _copy.deepcopy(o)),
+    }
+    for k in ('Camera', 'Cordon', 'VisGroup', 'Solid', 'UVAxis', 'Side', 'Entity', 'EntityGroup', 'Output', 'Keyvalues'):
+        makers[k] = (k, lambda o, m: o.copy())
+    n = _budget(ck, 25, 200)
+    bad: list[tuple] = []
+    seen_fields: set[tuple[str, str]] = set()
+    unknown = [lab for lab in census if lab not in makers and not lab.startswith(('DispVertex_in_', 'FixupValue_in_'))]
+    for lab in unknown:
+        bad.append((lab, '*', 'no runtime probe for this census', ''))
+    for lab, rows in census.items():
+        pairs: list[tuple[Any, Any]] = []
+        for _ in range(n):
+            r = random.Random(ck.rng.randrange(1 << 30))
+            vmf, other = U.VMF(), U.VMF()
+            with warnings.catch_warnings():
+                warnings.simplefilter('ignore')
+                if lab in makers:
+                    o = U.generate(makers[lab][0], r, vmf)
+                    pairs.append((o, makers[lab][1](o, other)))
+                elif lab.startswith('DispVertex_in_'):
+                    o = U.g_side(r, vmf, r.choice([1, 2]))
+                    c = o.copy()
+                    pairs += list(zip(o._disp_verts, c._disp_verts))[:6]
+                elif lab.startswith('FixupValue_in_'):
+                    o = U.generate('EntityFixup', r, vmf)
+                    which = lab.split('_in_')[1]
+                    c = makers[which][1](o, other)
+                    pairs += list(zip(o._fixup.values(), (c._fixup[k] for k in o._fixup)))
+        for o, c in pairs:
+            ck.count('census_runtime_pairs')
+            for f, _kind, how, _detail in rows:
+                try:
+                    a, b = getattr(o, f), getattr(c, f)
+                except AttributeError:
+                    bad.append((lab, f, 'attribute missing at run time', how))
+                    continue
+                rt = runtime_how(a, b)
+                ck.hist('census_runtime', f'{how}->{rt}')
+                seen_fields.add((lab, f))
+                if rt not in CONSISTENT[how]:
+                    bad.append((lab, f, rt, how))
+    for lab, rows in census.items():
+        for f, *_ in rows:
+            if (lab, f) not in seen_fields and lab not in unknown:
+                bad.append((lab, f, 'never exercised', ''))
+    uniq = sorted(set(bad))
+    ck.obligation('correspondence:census_vs_runtime', not uniq,
+                  f'{len(census)} censuses x fields compared with the object identities produced by the real copy methods; '
+                  f'disagreements (census label, field, runtime, census how): {uniq[:8]}')
+    if uniq:
+        ck.tie_broken.append('copy census disagrees with the run-time behaviour of copy(): ' + repr(uniq[:4]))
+
+
+
 # ------------------------------------------------------------------------------------------------ operators
 def search_operators(ck: Ck) -> None:
     from harness.c09_util import bits
     from srctools.math import Angle, FrozenAngle, FrozenMatrix, FrozenVec, Matrix, Vec
     r = ck.rng
-    n = ck.budget(40, 400)
+    n = _budget(ck, 40, 400)
 
     def operands():
         f = lambda: r.choice([0.0, -0.0, 1.0, -1.5, 90.0, 359.5, 1e-3, 37.25, 1024.0])
@@ -378,7 +479,7 @@ def run_kv_add(case_seed: int) -> list[dict]:
 
 
 def search_kv_add(ck: Ck) -> None:
-    n = ck.budget(3000, 30000)
+    n = _budget(ck, 3000, 30000)
     found: dict[str, tuple[dict, int]] = {}
     seeds = [ck.rng.randrange(1 << 30) for _ in range(n)]
     for s in seeds:
@@ -397,7 +498,7 @@ def corr_kv_add(ck: Ck, side: dict) -> None:
     if not recv:
         return
     r = ck.rng
-    n = ck.budget(400, 2000)
+    n = _budget(ck, 400, 2000)
     cases = []
     for _ in range(n):
         self_names = [r.randint(1, 9) for _ in range(r.choice([0, 1, 3]))]
@@ -521,7 +622,7 @@ def run_instance_case(case_seed: int) -> list[dict]:
 
 
 def search_instancing(ck: Ck) -> None:
-    n = ck.budget(150, 2000)
+    n = _budget(ck, 150, 2000)
     found: dict[str, tuple[dict, int]] = {}
     for _ in range(n):
         s = ck.rng.randrange(1 << 30)
@@ -569,8 +670,10 @@ def run(ck: Ck) -> None:
             detail = ck.coq_eval(IMPORTS, [f'(not_covered census_{c}, not_fresh census_{c})' for c in side.get('classes', [])],
                                  name='census_detail')
             if detail:
-                ck.extra['census_offending_fields'] = dict(zip(side.get('classes', []), detail))
+                ck.extra['census_offending_fields(not_covered, not_fresh)'] = {
+                    c: d for c, d in zip(side.get('classes', []), detail) if d.replace(' ', '') not in ('(nil,nil)', '([],[])')}
         cert_cases(ck)
+        corr_census_runtime(ck, side)
         corr_kv_add(ck, side)
     search_copies(ck)
     search_kv_add(ck)
